@@ -27,7 +27,8 @@ type SyncOpts struct {
 	Exe      string
 	OldN     int    // servers before
 	NewKind  string // grow | shrink | replace
-	Fault    string // "" or role:chunk:mode applied to one node in the first round
+	Fault    string // "" or role:chunk:mode applied to one node in the first round; "down:0:off" = an owner of records is not running in the first round
+	SepRoot  bool   // shard files live in their own directory (shardManager.rootDir differs from rootDir)
 	BigFiles bool   // synthetic shard files around the chunk size
 }
 
@@ -75,7 +76,7 @@ func (s *syncRun) tree(nodes []int) {
 	var files [][3]int
 	for _, n := range nodes {
 		for _, f := range s.files {
-			p := filepath.Join(s.roots[n-1], cluster.USERCOLSDIR, f.rel, "sharddb.bbolt")
+			p := filepath.Join(ShardRoot(s.roots[n-1]), cluster.USERCOLSDIR, f.rel, "sharddb.bbolt")
 			st := 0
 			if _, err := os.Stat(p); err == nil {
 				st = 1
@@ -120,6 +121,11 @@ func RunSync(no int, seed int64, root string, tw *trace.Writer, o SyncOpts) erro
 	dir := filepath.Join(root, fmt.Sprintf("sync%d", no))
 	os.RemoveAll(dir)
 	defer os.RemoveAll(dir)
+	if o.SepRoot {
+		os.Setenv("VERIF_SHARD_SUBDIR", "shardfiles")
+	} else {
+		os.Unsetenv("VERIF_SHARD_SUBDIR")
+	}
 	r := rand.New(rand.NewSource(seed))
 	total := o.OldN + 2
 	ports := FreePorts(total + 1)
@@ -196,7 +202,7 @@ func RunSync(no int, seed int64, root string, tw *trace.Writer, o SyncOpts) erro
 		}
 		for i, sz := range sizes {
 			rel := filepath.Join("synth", fmt.Sprintf("s%d", i), uuid.NewString())
-			p := filepath.Join(s.roots[r.Intn(len(old))], cluster.USERCOLSDIR, rel)
+			p := filepath.Join(ShardRoot(s.roots[r.Intn(len(old))]), cluster.USERCOLSDIR, rel)
 			os.MkdirAll(p, 0755)
 			buf := make([]byte, sz)
 			r.Read(buf)
@@ -207,7 +213,7 @@ func RunSync(no int, seed int64, root string, tw *trace.Writer, o SyncOpts) erro
 	}
 	// inventory of shard files
 	for i := range old {
-		base := filepath.Join(s.roots[i], cluster.USERCOLSDIR)
+		base := filepath.Join(ShardRoot(s.roots[i]), cluster.USERCOLSDIR)
 		filepath.Walk(base, func(p string, info os.FileInfo, err error) error {
 			if err == nil && filepath.Base(p) == "sharddb.bbolt" {
 				rel, _ := filepath.Rel(base, filepath.Dir(p))
@@ -261,7 +267,15 @@ func RunSync(no int, seed int64, root string, tw *trace.Writer, o SyncOpts) erro
 		// sender faults on a node that has something to send, receiver faults on an owner
 		var cand []int
 		for _, n := range nodes {
-			if role == "recv" {
+			if role == "down" {
+				// a destination of collection records that differs from where they are now
+				for _, rc := range rinfo {
+					if rc["owner"].(int) == n && (n > len(old) || len(old) > 1) {
+						cand = append(cand, n)
+						break
+					}
+				}
+			} else if role == "recv" {
 				for _, f := range finfo {
 					if f["owner"].(int) == n {
 						cand = append(cand, n)
@@ -287,6 +301,9 @@ func RunSync(no int, seed int64, root string, tw *trace.Writer, o SyncOpts) erro
 	for _, n := range nodes {
 		var env []string
 		if n == faultNode {
+			if strings.HasPrefix(o.Fault, "down") {
+				continue // not running during the first round
+			}
 			env = []string{"VERIF_SYNC_FAULT=" + o.Fault}
 		}
 		if err := start(n, env); err != nil {
